@@ -18,6 +18,29 @@ import (
 type xcase struct {
 	c.Case
 	needs []string // names of shared definitions, in the order of first use
+	hot   bool     // the real code opened a string that is not textually a genuine one of the case, or
+	// LoadSession misbehaved: the judgement will be non-zero (known finding or violation)
+}
+
+// orderCases keeps the corpus (first nCorpus cases) in place and moves the hot generated cases in
+// front of the others. Reason: CorrBase.run_judge reports indices as unary nat; with coqc's default
+// 8 MB stack a reported index above ~30 000 overflows. With this order large indices carry
+// judgement 0 on an unchanged tree, and if one does not, coqc fails on that shard and bin/check.py
+// reports a broken obligation - the check still fails, never passes wrongly.
+func orderCases(cases []xcase, nCorpus int) []xcase {
+	out := make([]xcase, 0, len(cases))
+	out = append(out, cases[:nCorpus]...)
+	for _, cs := range cases[nCorpus:] {
+		if cs.hot {
+			out = append(out, cs)
+		}
+	}
+	for _, cs := range cases[nCorpus:] {
+		if !cs.hot {
+			out = append(out, cs)
+		}
+	}
+	return out
 }
 
 // writeShards is common.WriteShards (same files, same R / KL protocol read by bin/check.py) plus a
